@@ -34,6 +34,8 @@ Inductive expr :=
  | ESet (l : list expr)                           (* {a, b}: a set display *)
  | EListComp (elt : expr) (x : string) (it : expr)   (* [elt for x in it] *)
  | EDict (l : list (expr * expr))                 (* {k: v, ...}: a dict display *)
+ | ETuple (l : list expr)                         (* (a, b): a tuple display *)
+ | EAdd (a b : expr)                              (* a + b on ints (bools count as 0 / 1) *)
  | ETypeIn (o : expr) (classes : list string)     (* type(o) in NAME, NAME a module-level tuple of builtin classes, resolved by the translator *)
  | EUnsupported (what : string).
 
@@ -228,6 +230,10 @@ Definition has_attr (v : pv) (a : string) : res bool :=
 Fixpoint py_all (l : list pv) : res pv :=
   match l with [] => Ok (VBool true) | x :: r => t <- truth x ;; if (t : bool) then py_all r else Ok (VBool false) end.
 
+(* ints and bools as integers (for +) *)
+Definition threshold_like (v : pv) : option Z :=
+  match v with VInt z => Some z | VBool b => Some (if b then 1 else 0)%Z | _ => None end.
+
 Definition call_builtin (f : string) (args : list pv) : res pv :=
   if String.eqb f "len" then
     match args with [v] => n <- py_len v ;; Ok (VInt (Z.of_nat n)) | _ => Err TypeError end
@@ -312,6 +318,12 @@ Section Interp.
                   match kv with VStr ks => subscript ov ks | _ => Unmodelled end
     | EList l => vs <- evals l ;; Ok (VList vs)
     | ESet l => vs <- evals l ;; Ok (VSet vs)
+    | ETuple l => vs <- evals l ;; Ok (VTuple vs)
+    | EAdd a b => va <- eval r a ;; vb <- eval r b ;;
+                  match threshold_like va, threshold_like vb with
+                  | Some x, Some y => Ok (VInt (x + y))
+                  | _, _ => Unmodelled
+                  end
     | EDict l =>
         (* entries evaluated left to right, key before value; str keys only; a repeated key keeps its first position and takes the later value *)
         (fix build (l : list (expr * expr)) (acc : list (pv * pv)) : res pv :=
